@@ -97,6 +97,7 @@ structure Aux where
   bounds : List (Name × Name) := []                     -- coordinate ncvar ↦ bounds ncvar
   spans : List (Name × Nat × List (Nat × Nat × Nat)) := []    -- ncdim, size, [(cid, kind, position)]
   omitG : List String := []                             -- g['global_attributes']
+  extVars : List Name := []                             -- g['external_variables']
   -- per field
   axisDim : List (Nat × Name) := []                     -- axis_to_ncdim
   axisScalar : List (Nat × Name) := []                  -- axis_to_ncscalar
@@ -206,6 +207,10 @@ structure Fix where
   names : Bool := true           -- C17-append-register-names: every name of the dataset is registered
   blanks : Bool := true          -- C17-netcdf-name-blanks: blanks replaced before the uniqueness test
   fill : Bool := true            -- C17-append-fill-value: missing_value ≠ _FillValue no longer rejected
+  /-- not a patch: every site that sets a global attribute of the dataset (`_write_global_attributes`,
+  `_set_external_variables`) is skipped when `post_dry_run`.  `false` is the seeded variant in which the
+  `external_variables` site lost its guard. -/
+  globalsGuarded : Bool := true
   deriving Repr, DecidableEq
 
 def Fix.new : Fix := {}
@@ -249,7 +254,7 @@ def run (fx : Fix) (m : Mode) : Prog α → Reg → FileSt → Except Err α × 
     if m == .dry || !fs.created.contains n then run fx m p r fs
     else run fx m p r { fs with ds := setVarAttr fs.ds n k v }
   | .setGlobal k v p, r, fs =>
-    if m == .real then run fx m p r { fs with ds := { fs.ds with gattrs := fs.ds.gattrs.filter (·.1 != k) ++ [(k, v)] } }
+    if m == .real || (m == .post && !fx.globalsGuarded) then run fx m p r { fs with ds := { fs.ds with gattrs := fs.ds.gattrs.filter (·.1 != k) ++ [(k, v)] } }
     else run fx m p r fs
 
 /-! ## The emission requests of one field
@@ -275,7 +280,8 @@ inductive Req
   | scalarCoord (key axis : Nat) (c : Cons) (base : Name) (b : Option BReq)
   | aux (key : Nat) (c : Cons) (axes : List Nat) (base : Name) (b : Option BReq)
   | domAnc (key : Nat) (c : Cons) (axes : List Nat) (base : Name) (b : Option BReq)
-  | msr (key : Nat) (c : Cons) (axes : List Nat) (base : Name) (measure : String)
+  /-- cell measure; `ext = some ncvar`: flagged external (`nc_get_external`), with its netCDF variable name -/
+  | msr (key : Nat) (c : Cons) (axes : List Nat) (base : Name) (measure : String) (ext : Option Name := none)
   /-- formula terms of one reference: owning coordinate key, its axis, (term, key, axes of the ancillary). -/
   | formula (owner : Nat) (zaxis : Nat) (terms : List (String × Nat × List Nat))
   | gridMap (c : Cons) (base : Name) (coordKeys : List Nat) (multiple : Bool)
@@ -293,6 +299,15 @@ structure FieldReq where
   deriving Repr, Inhabited
 
 /-! ### Helpers on the registry -/
+
+/-- Python's `sorted` on strings (code-point order), written so that the kernel can evaluate it. -/
+def strLe (a b : String) : Bool := decide (a.toList ≤ b.toList)
+
+def insertSorted (x : String) : List String → List String
+  | [] => [x]
+  | y :: ys => if strLe x y then x :: y :: ys else y :: insertSorted x ys
+
+def sortNames (l : List String) : List String := l.foldr insertSorted []
 
 def lookup {β} (l : List (Nat × β)) (k : Nat) : Option β := (l.find? (·.1 == k)).map (·.2)
 
@@ -446,7 +461,7 @@ def emitReq (fx : Fix) : Req → Prog Unit
         let _ ← writeBounds b ncdims ncvar c
         writeVar ncvar ncdims c []
         setKeyVar key (some ncvar)
-  | .msr key c axes base _ => do
+  | .msr key c axes base _ ext => do
     let a ← getAux
     match axisDims a axes with
     | none => failK "axis_to_ncdim"
@@ -454,9 +469,19 @@ def emitReq (fx : Fix) : Req → Prog Unit
       match alreadyInFile a c (some ncdims) false with
       | some e => setKeyVar key (some e.ncvar)
       | none =>
-        let ncvar ← allocN base
-        writeVar ncvar ncdims c []
-        setKeyVar key (some ncvar)
+        match ext with
+        | some ncvar =>
+          -- `_set_external_variables`: no variable is created in this dataset; the name joins the global
+          -- attribute `external_variables` (the netCDF4 call is one of the guarded global-attribute sites)
+          (if a.extVars.isEmpty then modA (fun a => { a with omitG := a.omitG ++ ["external_variables"] }) else pure ())
+          (if a.extVars.contains ncvar then pure () else do
+            modA (fun a => { a with extVars := a.extVars ++ [ncvar] })
+            Prog.setGlobal "external_variables" (" ".intercalate (sortNames (a.extVars ++ [ncvar]))) (.pure ()))
+          setKeyVar key (some ncvar)
+        | none =>
+          let ncvar ← allocN base
+          writeVar ncvar ncdims c []
+          setKeyVar key (some ncvar)
   | .formula owner zaxis terms => do
     let a ← getAux
     let ft := terms.filterMap (fun (t, k, _) => match lookup a.keyVar k with
@@ -512,7 +537,7 @@ def emitData (reqs : List Req) : Req → Prog Unit
       let a ← getAux
       let kv := fun k => match lookup a.keyVar k with | some (some v) => some v | _ => none
       let msrs := reqs.filterMap (fun r => match r with
-        | .msr k _ _ _ meas => (kv k).map (fun v => s!"{meas}: {v}")
+        | .msr k _ _ _ meas _ => (kv k).map (fun v => s!"{meas}: {v}")
         | _ => none)
       let gms := reqs.filterMap (fun r => match r with
         | .gridMap gc _ cks multiple =>
